@@ -4,6 +4,7 @@
 package main
 
 import (
+	"errors"
 	"fmt"
 
 	"github.com/Fantom-foundation/lachesis-base/kvdb"
@@ -16,16 +17,30 @@ type inst struct {
 	kvdb.Store
 	name          string
 	closes, drops int
+	inDrop        func() // called from inside Drop (re-entrant use of the wrapper)
 }
 
 func (s *inst) Close() error { s.closes++; return nil }
-func (s *inst) Drop()        { s.drops++ }
-
-type backend struct {
-	insts map[string][]*inst
+func (s *inst) Drop() {
+	s.drops++
+	if f := s.inDrop; f != nil {
+		s.inDrop = nil
+		f()
+	}
 }
 
+type backend struct {
+	insts    map[string][]*inst
+	failNext bool
+}
+
+var errOpen = errors.New("backend: open failed")
+
 func (b *backend) OpenDB(name string) (kvdb.Store, error) {
+	if b.failNext {
+		b.failNext = false
+		return nil, errOpen
+	}
 	s := &inst{Store: memorydb.New(), name: name}
 	b.insts[name] = append(b.insts[name], s)
 	return s, nil
@@ -36,7 +51,9 @@ func (b *backend) Flush(id []byte) error                       { return nil }
 func (b *backend) Initialize([]string, []byte) ([]byte, error) { return nil, nil }
 func (b *backend) Close() error                                { return nil }
 
-var opNames = []string{"open(a)", "open(b)", "close(a)", "close(b)", "drop(a)", "drop(b)"}
+var opNames = []string{"open(a)", "open(b)", "close(a)", "close(b)", "drop(a)", "drop(b)", "open-backend-fails(a)", "open-backend-fails(b)", "drop-with-reentrant-drop(a)", "drop-with-reentrant-drop(b)"}
+
+const nOps = 10
 
 type nameModel struct {
 	ref   int
@@ -104,6 +121,28 @@ func run(c *core.Ctx, wrapper string, seq []int) (ok bool) {
 					return
 				}
 				m.cur.Drop()
+			case 3: // open while the backend refuses: must fail and leave no trace
+				if m.ref > 0 {
+					return // served from the cache, the backend is not asked
+				}
+				be.failNext = true
+				st, err := p.OpenDB(name)
+				be.failNext = false
+				if err == nil || st != nil {
+					msg = "OpenDB succeeded although the backend failed"
+				}
+			case 4: // drop, with a second Drop issued from inside the backend's Drop
+				if m.cur == nil {
+					return
+				}
+				if is := be.insts[name]; len(is) > 0 {
+					h := m.cur
+					is[len(is)-1].inDrop = func() { h.Drop() }
+				}
+				m.cur.Drop()
+				if is := be.insts[name]; len(is) > 0 {
+					is[len(is)-1].inDrop = nil
+				}
 			}
 		})
 		if pv != nil {
@@ -143,12 +182,12 @@ func run(c *core.Ctx, wrapper string, seq []int) (ok bool) {
 
 func main() {
 	c := core.New("C27", "model_checking")
-	depth := 7
+	depth := 6
 	if !c.Quick() {
-		depth = 9
+		depth = 8
 	}
 	c.Set("depth", depth)
-	c.Set("rule", "all sequences over {open,close,drop} x {a,b} up to the depth bound, for Wrap and WrapAll; a handle is the latest store returned for the name (a closed-out handle is only re-used while the name is not open, i.e. to test over-closing)")
+	c.Set("rule", "all sequences over {open,close,drop,open-with-failing-backend,drop-with-reentrant-drop} x {a,b} up to the depth bound, for Wrap and WrapAll; a handle is the latest store returned for the name (a closed-out handle is only re-used while the name is not open, i.e. to test over-closing)")
 	// work items: (wrapper, first two ops)
 	type item struct {
 		w    string
@@ -156,8 +195,8 @@ func main() {
 	}
 	var items []item
 	for _, w := range []string{"Wrap", "WrapAll"} {
-		for a := 0; a < 6; a++ {
-			for b := 0; b < 6; b++ {
+		for a := 0; a < nOps; a++ {
+			for b := 0; b < nOps; b++ {
 				items = append(items, item{w, a, b})
 			}
 		}
@@ -176,7 +215,7 @@ func main() {
 			if len(seq) == depth {
 				return
 			}
-			for o := 0; o < 6; o++ {
+			for o := 0; o < nOps; o++ {
 				seq = append(seq, o)
 				rec()
 				seq = seq[:len(seq)-1]
